@@ -218,24 +218,32 @@ Lemma heads_law fl i x b : b <> [] -> splittable (heads fl i x) ->
   feed (heads fl i x) b = heads fl i (x ++ b).
 Proof.
   intros Hb. unfold heads.
-  destruct (list_eqb x CRLF) eqn:E.
-  - (* no header fields: request -> done; response -> the crash-next state: both not splittable *)
-    destruct (kind_resp && i); cbn [splittable]; [contradiction|].
-    unfold HttpFraming.body_step. destruct kind_resp; cbn [splittable]; contradiction.
-  - destruct (split_on CRLF2 x) as [[blk r]|] eqn:Sx.
-    + assert (E2 : list_eqb (x ++ b) CRLF = false).
-      { destruct (list_eqb (x ++ b) CRLF) eqn:E2; [|reflexivity]. apply list_eqb_eq in E2.
-        apply split_on_length in Sx. apply (f_equal (@length N)) in E2. rewrite app_length in E2. cbn in *. lia. }
-      rewrite E2, (split_on_app CRLF2 CRLF2_ne x blk r b Sx).
-      destruct (parse_hd blk) as [[[n|] [|]]|]; cbn [splittable]; try contradiction.
-      * apply body_step_law; exact Hb.
-      * apply body_step_law; exact Hb.
-      * intros Sp. destruct (chunk_adv_shape fl blk _ _ _ _ eq_refl Sp) as (body' & x' & E3).
-        rewrite E3. cbn [feed].
-        destruct (chunk_adv_law fl blk b (S (length r)) [] r fl blk body' x') as (_ & _ & E4); [lia|exact E3|].
-        exact E4.
-      * apply body_step_law; exact Hb.
-    + intros _. cbn [feed]. unfold heads. reflexivity.
+  destruct (is_prefix CRLF x) eqn:E.
+  - (* empty header section *)
+    rewrite (is_prefix_app CRLF x b E).
+    change 2%nat with (length CRLF). rewrite (skipn_prefix_app CRLF x b E).
+    destruct (skipn (length CRLF) x) as [|c r] eqn:R.
+    + destruct (kind_resp && i) eqn:K; cbn [andb splittable]; [contradiction|].
+      destruct b as [|y b]; [contradiction|]. cbn [app andb].
+      apply (body_step_law fl [] None (Some maxsize) [] [] (y :: b)). discriminate.
+    + cbn [app]. rewrite !andb_false_r. apply body_step_law; exact Hb.
+  - destruct (is_prefix CRLF (x ++ b)) eqn:E2.
+    + (* the empty line completed by b: x is [] or [CR], nothing found in x *)
+      destruct (split_on CRLF2 x) as [[blk r]|] eqn:Sx.
+      * exfalso. apply split_on_length in Sx.
+        rewrite (is_prefix_app_inv CRLF x b E2) in E; [discriminate|cbn in *; lia].
+      * intros _. cbn [feed]. unfold heads. rewrite E2. reflexivity.
+    + destruct (split_on CRLF2 x) as [[blk r]|] eqn:Sx.
+      * rewrite (split_on_app CRLF2 CRLF2_ne x blk r b Sx).
+        destruct (parse_hd blk) as [[[n|] [|]]|]; cbn [splittable]; try contradiction.
+        -- apply body_step_law; exact Hb.
+        -- apply body_step_law; exact Hb.
+        -- intros Sp. destruct (chunk_adv_shape fl blk _ _ _ _ eq_refl Sp) as (body' & x' & E3).
+           rewrite E3. cbn [feed].
+           destruct (chunk_adv_law fl blk b (S (length r)) [] r fl blk body' x') as (_ & _ & E4); [lia|exact E3|].
+           exact E4.
+        -- apply body_step_law; exact Hb.
+      * intros _. cbn [feed]. unfold heads. rewrite E2. reflexivity.
 Qed.
 
 (* THE SPLIT LAW: as long as the message is not complete after [a], delivering [a] and then [b]
@@ -440,119 +448,157 @@ Notation heads := (heads kind_resp parse_hd).
 Notation body_step := (body_step kind_resp).
 Notation run := (run kind_resp parse_fl parse_hd).
 
-(* the head of a well-formed message: first line L (no CRLF inside, accepted by the first-line parser),
-   header block H with at least one field (H ++ CRLFCRLF contains CRLFCRLF only at its end and does not
-   start with CRLF), accepted by the header parser with framing information (clen, chunked) *)
-Record wf_head (L H : list N) (i204 : bool) (clen : option Z) (chunked : bool) : Prop := {
+(* the header section HS as sent (everything between the first line's CRLF and the body), the block blk
+   handed to the header parser, the framing information it yields, and hl = "no header field at all":
+   - fields: HS = blk CRLF CRLF, whose only CRLFCRLF is the final one and which does not start with CRLF
+     (blk may contain any line structure, in particular obs-fold continuation lines: see header_block_wf);
+   - empty : HS = CRLF *)
+Inductive wf_hsec (HS blk : list N) (clen : option Z) (chunked hl : bool) : Prop :=
+| hs_fields : HS = blk ++ CRLF2 -> split_on CRLF2 HS = Some (blk, []) -> is_prefix CRLF HS = false ->
+              parse_hd blk = Some (clen, chunked) -> hl = false -> wf_hsec HS blk clen chunked hl
+| hs_empty : HS = CRLF -> blk = [] -> clen = None -> chunked = false -> hl = true ->
+             wf_hsec HS blk clen chunked hl.
+
+(* first line L (no CRLF inside, accepted by the first-line parser) + header section *)
+Record wf_head (L HS blk : list N) (i204 : bool) (clen : option Z) (chunked hl : bool) : Prop := {
   wf_L : split_on CRLF (L ++ CRLF) = Some (L, []);
   wf_fl : parse_fl L = Some i204;
-  wf_H : split_on CRLF2 (H ++ CRLF2) = Some (H, []);
-  wf_H0 : is_prefix CRLF (H ++ CRLF2) = false;
-  wf_hd : parse_hd H = Some (clen, chunked) }.
+  wf_HS : wf_hsec HS blk clen chunked hl }.
 
-(* the body B as sent, and the decoded body *)
-Definition wf_body (clen : option Z) (chunked : bool) (B body : list N) : Prop :=
+(* the body B as sent and the decoded body, for messages that are complete by themselves *)
+Definition wf_body (i204 hl : bool) (clen : option Z) (chunked : bool) (B body : list N) : Prop :=
   match clen with
   | Some n => Z.of_nat (length B) = n /\ body = B
   | None => if chunked
             then exists cks zl T, Forall wf_chunk cks /\ wf_last zl T /\
                                   B = chunked_bytes cks zl T /\ body = chunked_body cks
-            else kind_resp = false /\ B = [] /\ body = []
+            else B = [] /\ body = [] /\
+                 (kind_resp = false \/ (hl = true /\ i204 = true))   (* request without body; 204 without fields *)
   end.
 
-Definition msg_bytes (L H B : list N) : list N := L ++ CRLF ++ (H ++ CRLF2) ++ B.
+Definition msg_bytes (L HS B : list N) : list N := L ++ CRLF ++ HS ++ B.
 
-Definition enter (L H : list N) (clen : option Z) (chunked : bool) (r : list N) : pstate :=
-  match clen with
-  | Some n => body_step L H (Some n) (Some n) [] r
-  | None => if chunked then chunk_adv (S (length r)) L H [] r
-            else body_step L H None (Some maxsize) [] r
-  end.
+(* state right after the header section, r = the bytes that followed it in the same buffer *)
+Definition enter (L blk : list N) (i204 hl : bool) (clen : option Z) (chunked : bool) (r : list N) : pstate :=
+  if hl && (kind_resp && i204) && (match r with [] => true | _ => false end) then PDone L [] []
+  else match clen with
+       | Some n => body_step L blk (Some n) (Some n) [] r
+       | None => if chunked then chunk_adv (S (length r)) L blk [] r
+                 else body_step L blk None (Some maxsize) [] r
+       end.
 
 Section Head.
-Variables (L H : list N) (i204 : bool) (clen : option Z) (chunked : bool).
-Hypothesis WH : wf_head L H i204 clen chunked.
+Variables (L HS blk : list N) (i204 : bool) (clen : option Z) (chunked hl : bool).
+Hypothesis WH : wf_head L HS blk i204 clen chunked hl.
+
+Lemma HS_nonempty : HS <> [].
+Proof. destruct (wf_HS _ _ _ _ _ _ _ WH) as [E _ _ _ _|E _ _ _ _]; subst HS; [destruct blk|]; discriminate. Qed.
 
 Lemma feed_first_prefix p w : L ++ CRLF = p ++ w -> w <> [] -> feed (PFirst []) p = PFirst p.
 Proof.
-  intros E Hw. cbn [HttpFraming.feed app]. now rewrite (line_prefix_none L p w (wf_L _ _ _ _ _ WH) E Hw).
+  intros E Hw. cbn [HttpFraming.feed app]. now rewrite (line_prefix_none L p w (wf_L _ _ _ _ _ _ _ WH) E Hw).
 Qed.
 
-Lemma feed_head_prefix x w : H ++ CRLF2 = x ++ w -> w <> [] ->
+Lemma feed_head_prefix x w : HS = x ++ w -> w <> [] ->
   feed (PFirst []) (L ++ CRLF ++ x) = PHead L i204 x.
 Proof.
-  intros E Hw. cbn [HttpFraming.feed app]. rewrite app_assoc, (line_found L x (wf_L _ _ _ _ _ WH)).
-  rewrite (wf_fl _ _ _ _ _ WH). unfold HttpFraming.heads.
-  destruct (list_eqb x CRLF) eqn:Ex.
-  - apply list_eqb_eq in Ex. subst x. pose proof (wf_H0 _ _ _ _ _ WH) as H0. rewrite E in H0.
-    rewrite (is_prefix_refl CRLF w) in H0. discriminate.
-  - rewrite (split_on_prefix_none CRLF2 CRLF2_ne x w H []); [reflexivity|rewrite <- E; apply (wf_H _ _ _ _ _ WH)|].
-    apply (f_equal (@length N)) in E. rewrite !app_length in E. cbn in *. destruct w; [contradiction|cbn in E; lia].
+  intros E Hw. cbn [HttpFraming.feed app]. rewrite app_assoc, (line_found L x (wf_L _ _ _ _ _ _ _ WH)).
+  rewrite (wf_fl _ _ _ _ _ _ _ WH). unfold HttpFraming.heads.
+  assert (Lw : (0 < length w)%nat) by (destruct w; [contradiction|cbn; lia]).
+  destruct (wf_HS _ _ _ _ _ _ _ WH) as [E1 E2 E3 _ _|E1 _ _ _ _].
+  - destruct (is_prefix CRLF x) eqn:Ex.
+    + rewrite E, (is_prefix_app CRLF x w Ex) in E3. discriminate.
+    + rewrite (split_on_prefix_none CRLF2 CRLF2_ne x w blk []); [reflexivity|now rewrite <- E|].
+      rewrite E1 in E. apply (f_equal (@length N)) in E. rewrite !app_length in E. cbn in *. lia.
+  - rewrite E1 in E. destruct x as [|a [|b x]].
+    + reflexivity.
+    + cbn in E. inversion E; subst. reflexivity.
+    + cbn in E. inversion E as [[Ea Eb Ex]]. destruct x; [|discriminate]. cbn in Ex. subst w. contradiction.
 Qed.
 
-Lemma feed_head_done r : feed (PFirst []) (L ++ CRLF ++ (H ++ CRLF2) ++ r) = enter L H clen chunked r.
+Lemma feed_head_done r : feed (PFirst []) (L ++ CRLF ++ HS ++ r) = enter L blk i204 hl clen chunked r.
 Proof.
-  cbn [HttpFraming.feed app]. rewrite app_assoc, (line_found L _ (wf_L _ _ _ _ _ WH)).
-  rewrite (wf_fl _ _ _ _ _ WH). unfold HttpFraming.heads.
-  destruct (list_eqb ((H ++ CRLF2) ++ r) CRLF) eqn:Ex.
-  - apply list_eqb_eq in Ex. apply (f_equal (@length N)) in Ex. rewrite !app_length in Ex. cbn in Ex. lia.
-  - rewrite (split_on_app CRLF2 CRLF2_ne _ _ _ r (wf_H _ _ _ _ _ WH)), (wf_hd _ _ _ _ _ WH).
-    cbn [app]. unfold enter. destruct clen as [n|]; [reflexivity|]. destruct chunked; reflexivity.
+  cbn [HttpFraming.feed app]. rewrite app_assoc, (line_found L _ (wf_L _ _ _ _ _ _ _ WH)).
+  rewrite (wf_fl _ _ _ _ _ _ _ WH). unfold HttpFraming.heads, enter.
+  destruct (wf_HS _ _ _ _ _ _ _ WH) as [E1 E2 E3 E4 E5|E1 E2 E3 E4 E5].
+  - destruct (is_prefix CRLF (HS ++ r)) eqn:Ex.
+    + rewrite (is_prefix_app_inv CRLF HS r Ex) in E3; [discriminate|].
+      apply split_on_length in E2. cbn in *. lia.
+    + rewrite (split_on_app CRLF2 CRLF2_ne _ _ _ r E2), E4. subst hl. cbn [app andb].
+      destruct clen as [n|]; [reflexivity|]. destruct chunked; reflexivity.
+  - subst HS blk clen chunked hl. cbn [app is_prefix CRLF]. rewrite !N.eqb_refl. cbn [andb skipn].
+    reflexivity.
 Qed.
 
-(* no proper prefix of a well-formed message completes it (or breaks the parser) *)
-Lemma msg_prefix_waiting B :
-  (forall b1 w, B = b1 ++ w -> w <> [] -> waiting (enter L H clen chunked b1)) ->
-  forall p w, w <> [] -> msg_bytes L H B = p ++ w -> waiting (feed (PFirst []) p).
+(* every proper prefix of the message leaves a state satisfying P, if the pre-body phases and the states
+   entered after the header section do *)
+Lemma msg_prefix_P (P : pstate -> Prop) B :
+  (forall b, P (PFirst b)) -> (forall fl i b, P (PHead fl i b)) ->
+  (forall b1 w, B = b1 ++ w -> w <> [] -> P (enter L blk i204 hl clen chunked b1)) ->
+  forall p w, w <> [] -> msg_bytes L HS B = p ++ w -> P (feed (PFirst []) p).
 Proof.
-  intros Hpre p w Hw E. unfold msg_bytes in E. rewrite app_assoc in E.
+  intros P1 P2 Hpre p w Hw E. unfold msg_bytes in E. rewrite app_assoc in E.
   apply app_eq_app in E as [l [[E1 E2]|[E1 E2]]].
   - destruct l as [|x l].
     + rewrite app_nil_r in E1. subst p.
       rewrite <- (app_nil_r (L ++ CRLF)), <- app_assoc.
-      rewrite (feed_head_prefix [] (H ++ CRLF2)); [exact I|reflexivity|destruct H; discriminate].
-    + rewrite (feed_first_prefix p (x :: l) E1); [exact I|discriminate].
+      rewrite (feed_head_prefix [] HS); [apply P2|reflexivity|apply HS_nonempty].
+    + rewrite (feed_first_prefix p (x :: l) E1); [apply P1|discriminate].
   - subst p. rewrite <- app_assoc. apply app_eq_app in E2 as [l2 [[E3 E4]|[E3 E4]]].
     + destruct l2 as [|x l2].
       * rewrite app_nil_r in E3. subst l. cbn [app] in E4. subst w.
-        rewrite <- (app_nil_r (H ++ CRLF2)). rewrite feed_head_done. apply (Hpre [] B eq_refl Hw).
-      * rewrite (feed_head_prefix l (x :: l2) E3); [exact I|discriminate].
+        rewrite <- (app_nil_r HS). rewrite feed_head_done. apply (Hpre [] B eq_refl Hw).
+      * rewrite (feed_head_prefix l (x :: l2) E3); [apply P2|discriminate].
     + subst l. rewrite feed_head_done. apply (Hpre l2 w E4 Hw).
 Qed.
 
-Lemma enter_prefix B body : wf_body clen chunked B body ->
-  forall b1 w, B = b1 ++ w -> w <> [] -> waiting (enter L H clen chunked b1).
+Lemma hl_cases : hl = false \/ (hl = true /\ clen = None /\ chunked = false /\ blk = []).
+Proof. destruct (wf_HS _ _ _ _ _ _ _ WH) as [_ _ _ _ E|_ E1 E2 E3 E4]; auto. Qed.
+
+Lemma enter_prefix B body : wf_body i204 hl clen chunked B body ->
+  forall b1 w, B = b1 ++ w -> w <> [] -> waiting (enter L blk i204 hl clen chunked b1).
 Proof.
-  unfold wf_body, enter. intros WB b1 w E Hw. destruct clen as [n|].
-  - destruct WB as [Hn _]. subst B. rewrite app_length in Hn.
-    assert (Lw : (0 < length w)%nat) by (destruct w; [contradiction|cbn; lia]).
+  unfold wf_body, enter. intros WB b1 w E Hw. pose proof hl_cases as HC.
+  assert (Lw : (0 < length w)%nat) by (destruct w; [contradiction|cbn; lia]).
+  destruct clen as [n|].
+  - assert (Hh : hl = false) by (destruct HC as [?|(_ & ? & _)]; [assumption|discriminate]).
+    rewrite Hh. cbn [andb]. destruct WB as [Hn _]. subst B. rewrite app_length in Hn.
     unfold HttpFraming.body_step. destruct b1 as [|x b1].
     + cbn [length]. replace (n - Z.of_nat 0 <=? 0)%Z with false by (cbn in Hn; lia). exact I.
     + replace (n - Z.of_nat (length (x :: b1)) <=? 0)%Z with false by lia. exact I.
   - destruct chunked.
-    + destruct WB as (cks & zl & T & Hc & Hl & EB & _). subst B.
-      destruct (chunked_prefix L H cks zl T Hc Hl (S (length b1)) [] b1 w E Hw) as (b' & x' & E2); [lia|].
+    + assert (Hh : hl = false) by (destruct HC as [?|(_ & _ & ? & _)]; [assumption|discriminate]).
+      rewrite Hh. cbn [andb]. destruct WB as (cks & zl & T & Hc & Hl & EB & _). subst B.
+      destruct (chunked_prefix L blk cks zl T Hc Hl (S (length b1)) [] b1 w E Hw) as (b' & x' & E2); [lia|].
       rewrite E2. exact I.
-    + destruct WB as (_ & EB & _). subst B. destruct b1; [|discriminate]. cbn in E. subst w. contradiction.
+    + destruct WB as (EB & _). subst B. destruct b1; [|discriminate]. cbn in E. subst w. contradiction.
 Qed.
 
-Lemma enter_done B body : wf_body clen chunked B body -> enter L H clen chunked B = PDone L H body.
+Lemma enter_done B body : wf_body i204 hl clen chunked B body ->
+  enter L blk i204 hl clen chunked B = PDone L blk body.
 Proof.
-  unfold wf_body, enter. intros WB. destruct clen as [n|].
-  - destruct WB as [Hn Eb]. subst body. unfold HttpFraming.body_step. destruct B as [|x B].
+  unfold wf_body, enter. intros WB. pose proof hl_cases as HC. destruct clen as [n|].
+  - assert (Hh : hl = false) by (destruct HC as [?|(_ & ? & _)]; [assumption|discriminate]).
+    rewrite Hh. cbn [andb]. destruct WB as [Hn Eb]. subst body. unfold HttpFraming.body_step. destruct B as [|x B].
     + cbn in Hn. subst n. reflexivity.
     + replace (n - Z.of_nat (length (x :: B)) <=? 0)%Z with true by lia. reflexivity.
   - destruct chunked.
-    + destruct WB as (cks & zl & T & Hc & Hl & EB & Eb). subst B body.
-      rewrite (chunked_done L H cks zl T Hc Hl); [reflexivity|lia].
-    + destruct WB as (K & EB & Eb). subst B body. unfold HttpFraming.body_step. now rewrite K.
+    + assert (Hh : hl = false) by (destruct HC as [?|(_ & _ & ? & _)]; [assumption|discriminate]).
+      rewrite Hh. cbn [andb]. destruct WB as (cks & zl & T & Hc & Hl & EB & Eb). subst B body.
+      rewrite (chunked_done L blk cks zl T Hc Hl); [reflexivity|lia].
+    + destruct WB as (EB & Eb & K). subst B body. rewrite andb_true_r.
+      destruct (hl && (kind_resp && i204)) eqn:C.
+      * apply andb_true_iff in C as [Hh _]. destruct HC as [HC|(_ & _ & _ & HC)]; [congruence|]. now rewrite HC.
+      * unfold HttpFraming.body_step. destruct K as [K|[K1 K2]].
+        -- now rewrite K.
+        -- subst hl i204. cbn in C. rewrite andb_true_r in C. now rewrite C.
 Qed.
 
 (* THE MESSAGE THEOREM: every segmentation of a well-formed message into non-empty reads ends in the same
    completed state, carrying the first line, the header block and the decoded body *)
-Theorem message_segmentation B body : wf_body clen chunked B body ->
-  forall cs, Forall nonempty cs -> concat cs = msg_bytes L H B ->
-  run (PFirst []) cs = PDone L H body.
+Theorem message_segmentation B body : wf_body i204 hl clen chunked B body ->
+  forall cs, Forall nonempty cs -> concat cs = msg_bytes L HS B ->
+  run (PFirst []) cs = PDone L blk body.
 Proof.
   intros WB cs Hall E.
   assert (Hne : cs <> []).
@@ -560,42 +606,157 @@ Proof.
   rewrite (run_segmentation kind_resp parse_fl parse_hd cs (PFirst []) Hne Hall).
   - rewrite E. unfold msg_bytes. rewrite feed_head_done. now apply enter_done.
   - intros p q Ec Hp Hq. apply waiting_splittable.
-    apply (msg_prefix_waiting B (enter_prefix B body WB) (concat p) (concat q)).
+    apply (msg_prefix_P waiting B (fun _ => I) (fun _ _ _ => I) (enter_prefix B body WB) (concat p) (concat q)).
     + subst cs. apply Forall_app in Hall as [_ Hq2]. destruct q as [|q0 q]; [contradiction|].
       inversion Hq2; subst. cbn [concat]. unfold nonempty in *. destruct q0; [contradiction|discriminate].
     + rewrite <- E, Ec, concat_app. reflexivity.
 Qed.
 
-Lemma message_prefix_waiting B body : wf_body clen chunked B body ->
-  forall p q, Forall nonempty (p ++ q) -> p <> [] -> q <> [] -> concat (p ++ q) = msg_bytes L H B ->
-  waiting (run (PFirst []) p).
+Lemma concat_nonempty (q : list (list N)) : Forall nonempty q -> q <> [] -> concat q <> [].
 Proof.
-  intros WB p q Hall Hp Hq E.
-  assert (Wt : forall p' q', p' ++ q' = p ++ q -> q' <> [] -> waiting (feed (PFirst []) (concat p'))).
-  { intros p' q' Epq Hq'. apply (msg_prefix_waiting B (enter_prefix B body WB) (concat p') (concat q')).
-    - rewrite <- Epq in Hall. apply Forall_app in Hall as [_ Hq2]. destruct q' as [|q0 q']; [contradiction|].
-      inversion Hq2; subst. cbn [concat]. unfold nonempty in *. destruct q0; [contradiction|discriminate].
+  intros Hq Hne. destruct q as [|q0 q]; [contradiction|]. inversion Hq; subst.
+  cbn [concat]. unfold nonempty in *. destruct q0; [contradiction|discriminate].
+Qed.
+
+(* states reached by the proper prefixes of a segmentation, for any predicate implied as above *)
+Lemma prefix_runs_P (P : pstate -> Prop) B : (forall s, P s -> splittable s) ->
+  (forall b, P (PFirst b)) -> (forall fl i b, P (PHead fl i b)) ->
+  (forall b1 w, B = b1 ++ w -> w <> [] -> P (enter L blk i204 hl clen chunked b1)) ->
+  forall p q, Forall nonempty (p ++ q) -> p <> [] -> q <> [] -> concat (p ++ q) = msg_bytes L HS B ->
+  P (run (PFirst []) p).
+Proof.
+  intros PS P1 P2 Hpre p q Hall Hp Hq E.
+  assert (Wt : forall p' q', p' ++ q' = p ++ q -> q' <> [] -> P (feed (PFirst []) (concat p'))).
+  { intros p' q' Epq Hq'. apply (msg_prefix_P P B P1 P2 Hpre (concat p') (concat q')).
+    - rewrite <- Epq in Hall. apply Forall_app in Hall as [_ Hq2]. now apply concat_nonempty.
     - rewrite <- E, <- Epq, concat_app. reflexivity. }
   apply Forall_app in Hall as [Hp2 _].
   rewrite (run_segmentation kind_resp parse_fl parse_hd p (PFirst []) Hp Hp2).
   - apply (Wt p q eq_refl Hq).
-  - intros p1 p2 Ep Hp1 Hp2'. apply waiting_splittable. apply (Wt p1 (p2 ++ q)).
+  - intros p1 p2 Ep Hp1 Hp2'. apply PS. apply (Wt p1 (p2 ++ q)).
     + now rewrite Ep, app_assoc.
     + destruct p2; [contradiction|discriminate].
+Qed.
+
+Lemma message_prefix_waiting B body : wf_body i204 hl clen chunked B body ->
+  forall p q, Forall nonempty (p ++ q) -> p <> [] -> q <> [] -> concat (p ++ q) = msg_bytes L HS B ->
+  waiting (run (PFirst []) p).
+Proof.
+  intros WB. apply (prefix_runs_P waiting B waiting_splittable (fun _ => I) (fun _ _ _ => I) (enter_prefix B body WB)).
+Qed.
+
+(* ---- messages delimited by the end of the connection: responses without Content-Length that are not
+   chunked (any status, 204/304 included; header section with fields or empty). They never complete by
+   themselves: the state after the bytes received so far is the same for every segmentation ---- *)
+Definition until_close_state (B : list N) : pstate :=
+  PBody L blk None (Some (maxsize - Z.of_nat (length B))%Z) B.
+
+Lemma enter_until_close r : kind_resp = true -> clen = None -> chunked = false -> hl && i204 = false ->
+  (Z.of_nat (length r) < maxsize)%Z ->
+  enter L blk i204 hl clen chunked r = until_close_state r.
+Proof.
+  intros K -> -> Hh Lr. unfold enter, until_close_state. rewrite K. cbn [andb].
+  replace (hl && i204 && match r with [] => true | _ :: _ => false end) with false by (now rewrite Hh).
+  unfold HttpFraming.body_step. destruct r as [|x r].
+  - cbn [length]. replace (maxsize - Z.of_nat 0)%Z with maxsize by lia. reflexivity.
+  - replace (maxsize - Z.of_nat (length (x :: r)) <=? 0)%Z with false by lia. reflexivity.
+Qed.
+
+Theorem until_close_segmentation B : kind_resp = true -> clen = None -> chunked = false -> hl && i204 = false ->
+  (Z.of_nat (length B) < maxsize)%Z ->
+  forall cs, Forall nonempty cs -> concat cs = msg_bytes L HS B ->
+  run (PFirst []) cs = until_close_state B /\
+  (forall p q, cs = p ++ q -> p <> [] -> q <> [] -> splittable (run (PFirst []) p)).
+Proof.
+  intros K Ec Ech Hh LB cs Hall E.
+  assert (Hne : cs <> []).
+  { intros ->. cbn in E. unfold msg_bytes in E. destruct L; discriminate. }
+  assert (Hpre : forall b1 w, B = b1 ++ w -> w <> [] -> splittable (enter L blk i204 hl clen chunked b1)).
+  { intros b1 w EB Hw. rewrite enter_until_close; auto; [exact I|].
+    subst B. rewrite app_length in LB. lia. }
+  split.
+  - rewrite (run_segmentation kind_resp parse_fl parse_hd cs (PFirst []) Hne Hall).
+    + rewrite E. unfold msg_bytes. rewrite feed_head_done. now apply enter_until_close.
+    + intros p q Ecs Hp Hq.
+      apply (msg_prefix_P splittable B (fun _ => I) (fun _ _ _ => I) Hpre (concat p) (concat q)).
+      * subst cs. apply Forall_app in Hall as [_ Hq2]. now apply concat_nonempty.
+      * rewrite <- E, Ecs, concat_app. reflexivity.
+  - intros p q Ecs Hp Hq. subst cs.
+    apply (prefix_runs_P splittable B (fun s H => H) (fun _ => I) (fun _ _ _ => I) Hpre p q Hall Hp Hq E).
 Qed.
 End Head.
 End WF.
 
+(* ---- header blocks made of lines: obs-fold continuation lines are just lines that start with SP / HT ---- *)
+Definition clean_line (l : list N) : Prop := l <> [] /\ Forall (fun c => c <> CR /\ c <> LF) l.
+Fixpoint join_lines (ls : list (list N)) : list N :=
+  match ls with
+  | [] => []
+  | [l] => l
+  | l :: r => l ++ CRLF ++ join_lines r
+  end.
+
+Lemma split2_clean_app l x : Forall (fun c => c <> CR /\ c <> LF) l ->
+  split_on CRLF2 (l ++ x) = match split_on CRLF2 x with Some (a, r) => Some (l ++ a, r) | None => None end.
+Proof.
+  induction 1 as [|c l [Hc _] _ IH]; cbn [app].
+  - destruct (split_on CRLF2 x) as [[a r]|]; reflexivity.
+  - cbn [split_on]. replace (is_prefix CRLF2 (c :: l ++ x)) with false.
+    + rewrite IH. destruct (split_on CRLF2 x) as [[a r]|]; reflexivity.
+    + unfold CRLF2. cbn [is_prefix]. destruct (N.eqb_spec CR c) as [E|_]; [exfalso; apply Hc; now rewrite <- E|reflexivity].
+Qed.
+
+Lemma split_on_cons d a t : is_prefix d (a :: t) = false ->
+  split_on d (a :: t) = match split_on d t with Some (l, r) => Some (a :: l, r) | None => None end.
+Proof. intros H. cbn [split_on]. now rewrite H. Qed.
+
+Lemma split2_crlf_line c l x : c <> CR -> c <> LF ->
+  split_on CRLF2 (CRLF ++ c :: l ++ x) =
+  match split_on CRLF2 (c :: l ++ x) with Some (a, r) => Some (CRLF ++ a, r) | None => None end.
+Proof.
+  intros H1 H2. cbn [CRLF app].
+  assert (E1 : is_prefix CRLF2 (CR :: LF :: c :: l ++ x) = false).
+  { unfold CRLF2. cbn [is_prefix]. rewrite !N.eqb_refl. cbn [andb].
+    destruct (N.eqb_spec CR c) as [E|_]; [exfalso; apply H1; now rewrite <- E|reflexivity]. }
+  assert (E2 : is_prefix CRLF2 (LF :: c :: l ++ x) = false) by reflexivity.
+  rewrite (split_on_cons _ _ _ E1), (split_on_cons _ _ _ E2).
+  destruct (split_on CRLF2 (c :: l ++ x)) as [[a r]|]; reflexivity.
+Qed.
+
+(* any non-empty list of non-empty lines without CR / LF inside, joined by CRLF, is a header block in the
+   sense of wf_hsec: followed by CRLF CRLF its only CRLFCRLF is the final one, and it does not start with CRLF *)
+Theorem header_block_wf ls : ls <> [] -> Forall clean_line ls ->
+  split_on CRLF2 (join_lines ls ++ CRLF2) = Some (join_lines ls, []) /\
+  is_prefix CRLF (join_lines ls ++ CRLF2) = false.
+Proof.
+  intros Hne Hall. split.
+  - induction Hall as [|l r [Hl Hc] Hr IH]; [contradiction|].
+    destruct r as [|l2 r].
+    + cbn [join_lines]. rewrite (split2_clean_app l CRLF2 Hc). cbn. now rewrite app_nil_r.
+    + change (join_lines (l :: l2 :: r)) with (l ++ CRLF ++ join_lines (l2 :: r)).
+      rewrite <- !app_assoc. rewrite (split2_clean_app l _ Hc).
+      inversion Hr as [|? ? [Hl2 Hc2] _]; subst.
+      assert (J : exists c t, join_lines (l2 :: r) = c :: t /\ c <> CR /\ c <> LF).
+      { destruct l2 as [|c l2]; [contradiction|]. inversion Hc2 as [|? ? [A B] _]; subst.
+        destruct r; cbn [join_lines app]; eauto. }
+      destruct J as (c & t & Ej & A & B).
+      specialize (IH ltac:(discriminate)). rewrite Ej in *. cbn [app] in IH |- *.
+      rewrite (split2_crlf_line c t CRLF2 A B). cbn [app] in *. rewrite IH. cbn [app]. reflexivity.
+  - destruct ls as [|l r]; [contradiction|]. inversion Hall as [|? ? [Hl Hc] _]; subst.
+    destruct l as [|c l]; [contradiction|]. inversion Hc as [|? ? [A B] _]; subst.
+    assert (E : exists t, join_lines ((c :: l) :: r) ++ CRLF2 = c :: t) by (destruct r; cbn; eauto).
+    destruct E as [t ->]. unfold CRLF. cbn [is_prefix].
+    destruct (N.eqb_spec CR c) as [E|_]; [exfalso; apply A; now rewrite <- E|reflexivity].
+Qed.
+
 (* ================= the components around the parser ================= *)
-Record message := { m_L : list N; m_H : list N; m_B : list N; m_body : list N }.
+Record message := { m_L : list N; m_HS : list N; m_blk : list N; m_B : list N; m_body : list N }.
 
 Section Conn.
 Variable kind_resp : bool.
 Variable parse_fl : list N -> option bool.
 Variable parse_hd : list N -> option (option Z * bool).
 Variable emit : pstate -> option (list event).
-Hypothesis emit_wait : forall s, waiting s -> emit s = None.
-Hypothesis emit_done : forall fl blk body, emit (PDone fl blk body) = Some [EMsg fl blk body].
 
 Notation feed := (feed kind_resp parse_fl parse_hd).
 Notation run := (run kind_resp parse_fl parse_hd).
@@ -610,6 +771,21 @@ Proof.
   - cbn [app HttpFraming.conn_run]. destruct (conn_read s d) as [s1 e1]. rewrite IH.
     destruct (conn_run s1 a) as [s2 e2]. destruct (conn_run s2 b) as [s3 e3]. now rewrite app_assoc.
 Qed.
+
+(* reads after which the component fires nothing and keeps its parser *)
+Lemma conn_run_quiet (Q : pstate -> Prop) : (forall s, Q s -> emit s = None /\ s <> PCrash) ->
+  forall cs s, (forall p q, cs = p ++ q -> p <> [] -> Q (run s p)) -> conn_run s cs = (run s cs, []).
+Proof.
+  intros HQ. induction cs as [|c cs IH]; intros s Hq; [reflexivity|].
+  cbn [HttpFraming.conn_run]. unfold HttpFraming.conn_read.
+  destruct (HQ (feed s c)) as [E1 E2]. { apply (Hq [c] cs eq_refl). discriminate. }
+  rewrite E1. rewrite (IH (feed s c)).
+  - cbn. destruct (feed s c); try reflexivity. contradiction.
+  - intros p q E Hp. apply (Hq (c :: p) q); [now rewrite E|discriminate].
+Qed.
+
+Hypothesis emit_wait : forall s, waiting s -> emit s = None.
+Hypothesis emit_done : forall fl blk body, emit (PDone fl blk body) = Some [EMsg fl blk body].
 
 Lemma conn_run_single : forall cs s fl blk body, cs <> [] ->
   (forall p q, cs = p ++ q -> p <> [] -> q <> [] -> waiting (run s p)) ->
@@ -631,10 +807,10 @@ Proof.
 Qed.
 
 Definition wf_message (m : message) : Prop :=
-  exists i clen ch, wf_head parse_fl parse_hd (m_L m) (m_H m) i clen ch /\
-                    wf_body kind_resp clen ch (m_B m) (m_body m).
-Definition message_bytes (m : message) : list N := msg_bytes (m_L m) (m_H m) (m_B m).
-Definition message_event (m : message) : event := EMsg (m_L m) (m_H m) (m_body m).
+  exists i hl clen ch, wf_head parse_fl parse_hd (m_L m) (m_HS m) (m_blk m) i clen ch hl /\
+                       wf_body kind_resp i hl clen ch (m_B m) (m_body m).
+Definition message_bytes (m : message) : list N := msg_bytes (m_L m) (m_HS m) (m_B m).
+Definition message_event (m : message) : event := EMsg (m_L m) (m_blk m) (m_body m).
 
 (* a sequence of well-formed messages on one connection, each cut into reads in any way (no read spans
    two messages): exactly one event per message, carrying exactly that message, and the connection is
@@ -645,15 +821,15 @@ Theorem keepalive_segmentation : forall ms css, Forall wf_message ms ->
 Proof.
   intros ms css Hwf H2. induction H2 as [|m cs ms css [Hne Hc] H2 IH].
   - reflexivity.
-  - inversion Hwf as [|? ? (i & clen & ch & WH & WB) Hwf']; subst.
+  - inversion Hwf as [|? ? (i & hl & clen & ch & WH & WB) Hwf']; subst.
     cbn [concat map]. rewrite conn_run_app.
     assert (Hcs : cs <> []).
     { intros ->. cbn in Hc. unfold message_bytes, msg_bytes in Hc. destruct (m_L m); discriminate. }
-    rewrite (conn_run_single cs (PFirst []) (m_L m) (m_H m) (m_body m) Hcs).
+    rewrite (conn_run_single cs (PFirst []) (m_L m) (m_blk m) (m_body m) Hcs).
     + rewrite (IH Hwf'). reflexivity.
     + intros p q E Hp Hq. subst cs.
-      apply (message_prefix_waiting kind_resp parse_fl parse_hd _ _ _ _ _ WH (m_B m) (m_body m) WB p q Hne Hp Hq Hc).
-    + apply (message_segmentation kind_resp parse_fl parse_hd _ _ _ _ _ WH (m_B m) (m_body m) WB cs Hne Hc).
+      apply (message_prefix_waiting kind_resp parse_fl parse_hd _ _ _ _ _ _ _ WH (m_B m) (m_body m) WB p q Hne Hp Hq Hc).
+    + apply (message_segmentation kind_resp parse_fl parse_hd _ _ _ _ _ _ _ WH (m_B m) (m_body m) WB cs Hne Hc).
 Qed.
 End Conn.
 
@@ -661,6 +837,8 @@ Lemma srv_emit_wait s : waiting s -> srv_emit s = None.
 Proof. destruct s as [| | ? ? [?|] [?|] ?| | | | |]; cbn; intros H; try reflexivity; contradiction. Qed.
 Lemma cli_emit_wait s : waiting s -> cli_emit s = None.
 Proof. destruct s as [| | ? ? [?|] [?|] ?| | | | |]; cbn; intros H; try reflexivity; contradiction. Qed.
+Lemma cli_emit_splittable s : splittable s -> cli_emit s = None /\ s <> PCrash.
+Proof. destruct s as [| | ? ? ? [?|] ?| | | | |]; cbn; intros H; try contradiction; split; try reflexivity; discriminate. Qed.
 
 Theorem server_keepalive parse_fl parse_hd ms css :
   Forall (wf_message false parse_fl parse_hd) ms ->
@@ -674,40 +852,73 @@ Theorem client_keepalive parse_fl parse_hd ms css :
   conn_run true parse_fl parse_hd cli_emit (PFirst []) (concat css) = (PFirst [], map message_event ms).
 Proof. apply keepalive_segmentation; [exact cli_emit_wait|reflexivity]. Qed.
 
-(* ================= what the repaired code still gets wrong ================= *)
-(* a response without any header field whose body arrives in a later read than the empty line: one-piece
-   delivery waits forever in the header phase, the segmented one raises (None -= int) *)
-Definition hl_fl : list N -> option bool := fun _ => Some false.
-Definition hl_hd : list N -> option (option Z * bool) := fun _ => None.
-Definition hl_head : list N := [72;84;84;80;47;49;46;48;32;50;48;48;32;79;75;13;10;13;10]. (* HTTP/1.0 200 OK CRLF CRLF *)
-Definition hl_body : list N := [104;105].
-
-Theorem headerless_response_refuted :
-  exists parse_fl parse_hd cs1 cs2,
-    Forall nonempty cs1 /\ Forall nonempty cs2 /\ concat cs1 = concat cs2 /\
-    run true parse_fl parse_hd (PFirst []) cs1 <> run true parse_fl parse_hd (PFirst []) cs2.
+(* client, response delimited by the end of the connection (no Content-Length, not chunked; any status,
+   header fields or none), preceded by any keep-alive sequence of complete responses: whatever the
+   segmentation, one response event per complete response, NO event for the last one (nothing in
+   protocols/http.py or web/client.py ever signals the end of the connection to the parser), and the same
+   parser state holding the bytes received so far *)
+Theorem client_until_close parse_fl parse_hd ms css L HS blk i204 hl B cs :
+  Forall (wf_message true parse_fl parse_hd) ms ->
+  Forall2 (fun m cs => Forall nonempty cs /\ concat cs = message_bytes m) ms css ->
+  wf_head parse_fl parse_hd L HS blk i204 None false hl -> hl && i204 = false ->
+  (Z.of_nat (length B) < maxsize)%Z ->
+  Forall nonempty cs -> concat cs = msg_bytes L HS B ->
+  conn_run true parse_fl parse_hd cli_emit (PFirst []) (concat css ++ cs)
+  = (PBody L blk None (Some (maxsize - Z.of_nat (length B))%Z) B, map message_event ms).
 Proof.
-  exists hl_fl, hl_hd, [hl_head ++ hl_body], [hl_head; hl_body].
-  repeat split.
-  - repeat constructor; discriminate.
-  - repeat constructor; discriminate.
-  - vm_compute. discriminate.
+  intros Hms H2 WH Hh LB Hall E.
+  rewrite conn_run_app, (client_keepalive parse_fl parse_hd ms css Hms H2).
+  destruct (until_close_segmentation true parse_fl parse_hd _ _ _ _ _ _ _ WH B eq_refl eq_refl eq_refl Hh LB cs Hall E)
+    as [Hrun Hpre].
+  rewrite (conn_run_quiet true parse_fl parse_hd cli_emit splittable cli_emit_splittable cs (PFirst [])).
+  - rewrite Hrun, app_nil_r. reflexivity.
+  - intros p q Ecs Hp. destruct q as [|q0 q].
+    + rewrite app_nil_r in Ecs. subst p. rewrite Hrun. exact I.
+    + apply (Hpre p (q0 :: q) Ecs Hp). discriminate.
+Qed.
+
+(* the special case the property names: 204 / 304 (or any status) without Content-Length and without body *)
+Corollary client_nobody parse_fl parse_hd ms css L HS blk i204 hl cs :
+  Forall (wf_message true parse_fl parse_hd) ms ->
+  Forall2 (fun m cs => Forall nonempty cs /\ concat cs = message_bytes m) ms css ->
+  wf_head parse_fl parse_hd L HS blk i204 None false hl -> hl && i204 = false ->
+  Forall nonempty cs -> concat cs = msg_bytes L HS [] ->
+  conn_run true parse_fl parse_hd cli_emit (PFirst []) (concat css ++ cs)
+  = (PBody L blk None (Some maxsize) [], map message_event ms).
+Proof.
+  intros Hms H2 WH Hh Hall E.
+  rewrite (client_until_close parse_fl parse_hd ms css L HS blk i204 hl [] cs Hms H2 WH Hh); auto.
+  reflexivity.
 Qed.
 
 (* ================= example data for the non-vacuity Examples of Props/C13.v ================= *)
 Definition ex_L : list N := [80;79;83;84;32;47;32;72;84;84;80;47;49;46;49].    (* POST / HTTP/1.1 *)
 Definition ex_fl (l : list N) : option bool := if list_eqb l ex_L then Some false else None.
-Definition ex_H : list N := [72;111;115;116;58;32;120;13;10;84;69;58;32;99].   (* "Host: x CRLF TE: c" *)
+(* "Host: x" , "X-F: a" , " b" (a continuation line), "TE: c" *)
+Definition ex_lines : list (list N) := [[72;111;115;116;58;32;120]; [88;45;70;58;32;97]; [32;98]; [84;69;58;32;99]].
+Definition ex_H : list N := join_lines ex_lines.
 Definition ex_hd (l : list N) : option (option Z * bool) := if list_eqb l ex_H then Some (None, true) else None.
 Definition ex_cks : list chunk := [ {| c_line := [51;59;120]; c_data := [97;13;10] |};    (* "3;x" "a CR LF" *)
                                     {| c_line := [48;49];     c_data := [98] |} ].          (* "01" "b" *)
 Definition ex_B : list N := chunked_bytes ex_cks [48] [84;58;118;13;10;13;10].             (* "0" "T:v CRLF CRLF" *)
 
-Lemma ex_wf_head : wf_head ex_fl ex_hd ex_L ex_H false None true.
-Proof. constructor; vm_compute; reflexivity. Qed.
-Lemma ex_wf_body : wf_body false None true ex_B [97;13;10;98].
+Lemma ex_lines_clean : ex_lines <> [] /\ Forall clean_line ex_lines.
+Proof.
+  split; [discriminate|]. repeat constructor; try discriminate.
+Qed.
+
+Lemma ex_wf_head : wf_head ex_fl ex_hd ex_L (ex_H ++ CRLF2) ex_H false None true false.
+Proof.
+  destruct (header_block_wf ex_lines (proj1 ex_lines_clean) (proj2 ex_lines_clean)) as [A B].
+  constructor; [vm_compute; reflexivity|vm_compute; reflexivity|].
+  apply hs_fields; [reflexivity|exact A|exact B|vm_compute; reflexivity|reflexivity].
+Qed.
+Lemma ex_wf_body : wf_body false false false None true ex_B [97;13;10;98].
 Proof.
   exists ex_cks, [48], [84;58;118;13;10;13;10]. repeat split; try (vm_compute; reflexivity).
   - repeat constructor; try (vm_compute; reflexivity); discriminate.
   - right. split; [reflexivity|]. exists [84;58;118]. split; vm_compute; reflexivity.
 Qed.
+(* a request and a 204 response without any header field *)
+Lemma ex_wf_head_empty kind : wf_head (fun _ => Some kind) (fun _ => None) [71] CRLF [] kind None false true.
+Proof. constructor; [reflexivity|reflexivity|]. apply hs_empty; reflexivity. Qed.
